@@ -349,6 +349,10 @@ func NewPolicyFromSource(rules string, conf *Config, meta *EnterprisePolicyMeta)
 // takesPrecedenceOver returns true when permission a
 // should take precedence over permission b
 func takesPrecedenceOver(a, b string) bool {
+	// Access levels are case-insensitive (see AccessLevelFromString), so a
+	// policy that spells "Deny" must still override "read" or "write".
+	a, b = strings.ToLower(a), strings.ToLower(b)
+
 	if a == PolicyDeny {
 		return true
 	} else if b == PolicyDeny {
